@@ -87,6 +87,16 @@ del sub                                   # this side only keeps its callback re
 channel.receive()                         # the initiator says when it has dropped its end, too
 channel.gateway.execmodel.sleep(0.5)
 """
+W_CALLBACK_READOPTED = """
+c2 = channel.receive()                    # the initiator registered a callback on it and dropped its object
+for x in %(items)r:
+    c2.send(x)
+channel.send(c2)                          # the channel travels back: the initiator gets a NEW object for the same id
+channel.receive()
+for x in %(items2)r:
+    c2.send(x)
+c2.close()
+"""
 W_CONSUME = """
 got = []
 for i in range(%(n)d):
@@ -214,6 +224,10 @@ def gen_conversation(rng, kinds, tag):
             c["stderr"] = "closed"
     elif kind == "both_drop_cb":
         c["items"] = gen_items(rng, rng.randint(0, 3), big=False)
+    elif kind == "callback_readopted":
+        c["items"] = gen_items(rng, rng.randint(0, 3), big=False)
+        c["items2"] = gen_items(rng, rng.randint(1, 3), big=False)
+        c["keep"] = rng.choice([1, 1, 0])
     elif kind == "subchannel_dropped":
         c["items"] = gen_items(rng, rng.randint(0, 3), big=False)
     elif kind == "halfclose":
@@ -249,6 +263,8 @@ def worker_source(c):
         return W_CONSUME_UNTIL_EOF % {"tag": c["tag"]}
     if k == "callback_raises":
         return W_CALLBACK_RAISES % {"tag": c["tag"], "bad": c["bad"], "keep": c["keep"], "raise_": CB_RAISES[c.get("exc", "plain")]}
+    if k == "callback_readopted":
+        return W_CALLBACK_READOPTED % {"items": c["items"], "items2": c["items2"]}
     if k == "both_drop_cb":
         return W_BOTH_DROP_CB % {"tag": c["tag"], "items": c["items"]}
     if k == "subchannel_dropped":
@@ -551,6 +567,28 @@ def run_program(prog, chooser, seed, line_budget=0, cut_w2i=None, remote_backend
                 o["outer"] = "closed"
             except Exception as e:  # noqa
                 o["outer"] = type(e).__name__
+        elif k == "callback_readopted":
+            # a callback stays registered for an id whose Channel object is dropped; the peer hands the channel back inside an
+            # item, so a new object for the same id appears here: the callback still gets every item, then its endmarker
+            box = []
+            sub = gw.newchannel()
+            o["subid"] = sub.id
+            sub.setcallback(box.append, endmarker=("END",))
+            ch.send(sub)
+            del sub
+            try:
+                again = ch.receive(timeout=20)
+                o["again"] = type(again).__name__ + ":" + str(getattr(again, "id", None) == o["subid"])
+                if not c.get("keep"):
+                    del again
+                ch.send("go on")
+                ch.waitclose(timeout=20)
+                pr.em_i.sleep(0.5)
+                o["end"] = "closed"
+            except Exception as e:  # noqa
+                o["end"] = type(e).__name__
+            o["got"] = list(box)
+            again = None
         elif k == "both_drop_cb":
             # both ends register a callback on the sub-channel and then drop their Channel object: each __del__ tells the other side
             # (LAST_MESSAGE), which forgets the id and hands its callback the endmarker
@@ -848,6 +886,12 @@ def check_conversation(ck, prefix, c, o, out, ex, lossy=False):
             own = [n[2] for n in out["worker_notes"] if n[0] == c["tag"] and n[1] == "own"]
             if own != ["RemoteError"]:
                 ck.fail(prefix + "callback-error-failing-side-not-closed-with-RemoteError:" + str(own), ex)
+    elif k == "callback_readopted":
+        want = list(map(canon_item, c["items"] + c["items2"])) + [canon_item(("END",))]
+        if o.get("end") != "closed" or o.get("again") != "Channel:True":
+            ck.fail(prefix + "callback-readopted-conversation-failed:%s:%s" % (o.get("end"), o.get("again")), ex)
+        elif list(map(canon_item, o.get("got", []))) != want:
+            ck.fail(prefix + "callback-items-differ-after-channel-came-back", ex)
     elif k == "subchannel_dropped":
         cg = o.get("carrier_got") or []
         if cg[:1] != ["Channel"] or cg[-1:] not in ([("END",)], [["END"]]):
@@ -872,7 +916,7 @@ def check_conversation(ck, prefix, c, o, out, ex, lossy=False):
             ck.fail(prefix + "channel-id-parity-wrong", ex)
 
 
-ALL_KINDS = ["produce", "produce_raise", "consume", "consume_eof", "callback_raises", "subchannel", "halfclose", "subchannel_dropped", "both_drop_cb"]
+ALL_KINDS = ["produce", "produce_raise", "consume", "consume_eof", "callback_raises", "subchannel", "halfclose", "subchannel_dropped", "both_drop_cb", "callback_readopted"]
 
 
 def run_property(prop, tier, seed, replay, kinds_weight, prefix_filter, rule, assumptions, nprog_quick=140, extra=None):
